@@ -25,7 +25,9 @@ RULE = (
     "schema from the zoo or random; a pool seeded with two documents, their fragments, slices, mark lists; then 3..25 (quick) / 3..50 "
     "(thorough) operations drawn statefully from: model queries (resolve+accessors, nodes_between, text_between, node_at, check, eq, diff), "
     "slice/cut/replace/copy/mark, fragment algebra, mark-set algebra, allowed_marks, step apply/invert/map/merge/get_map, every Transform "
-    "operation, JSON conversion, HTML export/import (bundled schemas), structure helpers, fill_before/find_wrapping/create_and_fill. "
+    "operation, JSON conversion, HTML export/import (bundled schemas), structure helpers, fill_before/find_wrapping/create_and_fill, and "
+    "Mapping programs over up to four live mappings (append_map with and without a mirror, append_mapping(_inverted), copy, slice, invert; "
+    "copies stay live and are appended to later - only the mapping an operation appends to may change, maps and mirror table by appending). "
     "Results join the pool. Non-trivial = a program of >=3 operations in which some sub-tree object is shared by identity between >=2 live "
     "documents; distinct by (schema, program)."
 )
@@ -81,7 +83,11 @@ class Pool:
         from prosemirror.transform import Mapping
 
         self.mapping = Mapping()
-        self.mapping_seen: list = []
+        # every live Mapping (index 0 = the main one; copies are added by the "copy" operation); `appended` names the
+        # ones the current operation appends to - all others must keep their whole state (maps, mirror table, window)
+        self.mappings: list = [self.mapping]
+        self.mappings_seen: list = [self.mapping_state(self.mapping)]
+        self.appended: set = set()
         self.tr: Any = None
         self.tr_seen: dict = {"steps": [], "docs": [], "maps": []}
 
@@ -100,6 +106,14 @@ class Pool:
         if kind == "map":
             return (list(obj.ranges), bool(obj.inverted))
         raise ValueError(kind)
+
+    @staticmethod
+    def mapping_state(m: Any) -> dict:
+        return {
+            "maps": [(list(x.ranges), bool(x.inverted)) for x in m.maps],
+            "mirror": list(m.mirror or []),
+            "window": (m.from_, m.to),
+        }
 
     def add(self, kind: str, obj: Any, origin: str) -> None:
         if len(self.items) >= 40:
@@ -130,9 +144,22 @@ class Pool:
         require(Slice.empty.content.size == 0 and Slice.empty.open_start == 0 and Slice.empty.open_end == 0, "singleton:Slice.empty", f"after {after}")
         require(StepMap.empty.ranges == [] and not StepMap.empty.inverted, "singleton:StepMap.empty", f"after {after}: StepMap.empty = {StepMap.empty}")
         # accumulators only append
-        cur = [(list(m.ranges), bool(m.inverted)) for m in self.mapping.maps]
-        require(cur[: len(self.mapping_seen)] == self.mapping_seen, "accumulator:mapping-rewritten", f"after {after}: earlier maps of the mapping changed")
-        self.mapping_seen = cur
+        for j, mp in enumerate(self.mappings):
+            cur = self.mapping_state(mp)
+            if j < len(self.mappings_seen):
+                old = self.mappings_seen[j]
+                if j in self.appended:
+                    require(
+                        cur["maps"][: len(old["maps"])] == old["maps"] and cur["mirror"][: len(old["mirror"])] == old["mirror"],
+                        "accumulator:mapping-rewritten",
+                        f"after {after}: earlier maps / mirror entries of mapping #{j} changed: {old} -> {cur}",
+                    )
+                else:
+                    require(cur == old, "accumulator:mapping-changed-without-append", f"after {after}: mapping #{j} was not appended to but changed: {old} -> {cur}")
+                self.mappings_seen[j] = cur
+            else:
+                self.mappings_seen.append(cur)
+        self.appended = set()
         if self.tr is not None:
             steps = [gs.describe_step(s) for s in self.tr.steps]
             docs = [P.plain(d) for d in self.tr.docs]
@@ -384,8 +411,16 @@ def run_op(pool: Pool, op: dict) -> None:
             pool.add("map", m, "Transform.mapping.maps")
     elif k == "mapping":
         maps = [it[i]["obj"] for i in op["maps"]]
+        ti = op.get("target", 0) % len(pool.mappings)
+        target = pool.mappings[ti]
+        pool.appended = {ti}
         for m in maps:
-            _guard(pool.mapping.append_map, m)
+            _guard(target.append_map, m)
+        if op.get("mirrored") and maps:
+            # a map followed by its inverse registered as its mirror (what rebasing records)
+            iv0 = _guard(maps[-1].invert)
+            if iv0 is not None:
+                _guard(target.append_map, iv0, len(target.maps) - 1)
         other = Mapping()
         for m in maps:
             other.append_map(m)
@@ -393,22 +428,32 @@ def run_op(pool: Pool, op: dict) -> None:
             other.append_map(maps[0].invert(), 0)
         how = op["how"]
         if how == "append_mapping":
-            _guard(pool.mapping.append_mapping, other)
+            _guard(target.append_mapping, other)
         elif how == "append_inverted":
-            _guard(pool.mapping.append_mapping_inverted, other)
+            _guard(target.append_mapping_inverted, other)
         elif how == "invert":
             inv = _guard(other.invert)
             if inv is not None:
                 for m in inv.maps[:2]:
                     pool.add("map", m, "Mapping.invert")
         elif how == "copy":
-            c = _guard(pool.mapping.copy)
+            c = _guard(target.copy)
             if c is not None:
-                _guard(c.append_map, StepMap([0, 0, 1]))
+                if len(pool.mappings) < 4:
+                    pool.mappings.append(c)  # later operations append to the copy (or to the original)
+                else:
+                    _guard(c.append_map, StepMap([0, 0, 1]))
+        elif how == "slice":
+            sl = _guard(target.slice, op.get("a", 0), min(len(target.maps), op.get("b", 1)))
+            if sl is not None:
+                _guard(sl.map, 1, 1)
+                _guard(sl.invert)
         for pos in (0, 1, 3):
-            _guard(pool.mapping.map, pos, 1)
-            _guard(pool.mapping.map_result, pos, -1)
+            _guard(target.map, pos, 1)
+            _guard(target.map_result, pos, -1)
             _guard(other.map, pos, -1)
+            for mp in pool.mappings:
+                _guard(mp.map_result, pos, 1)
         for m in maps:
             iv = _guard(m.invert)
             if iv is not None:
@@ -563,7 +608,14 @@ def generate(R: Draw, tier: str) -> dict:
             base = pool.tr.doc if (pool.tr is not None and not op["fresh"]) else d
             op["op"] = go.gen_op(R, g, lib, base)
         elif k == "mapping":
-            op.update({"maps": R.sample(pool.of("map"), R.int(1, 2)), "how": R.choice(["append_mapping", "append_inverted", "invert", "copy", "none"])})
+            op.update({
+                "maps": R.sample(pool.of("map"), R.int(1, 2)),
+                "how": R.choice(["append_mapping", "append_inverted", "invert", "copy", "copy", "slice", "none"]),
+                "target": R.int(0, len(pool.mappings) - 1),
+                "mirrored": R.bool(0.5),
+                "a": R.int(0, 2),
+                "b": R.int(0, 4),
+            })
         elif k == "helpers":
             op.update({"pos": a, "span": R.int(0, 8), "slice": R.choice(pool.of("slice"))})
         elif k == "content_match":
